@@ -144,7 +144,9 @@ func genOffender(r *RNG, rid int, kind string, maxBody int, withTail, inflight b
 
 // headerOffence: kinds whose offence is a malformed header block (decided while decoding or at END_HEADERS).
 var headerOffence = map[string]bool{"upper-case": true, "pseudo-after-regular": true, "unknown-pseudo": true, "response-pseudo": true,
-	"dup-pseudo": true, "missing-path": true, "empty-path": true, "connection-specific": true, "te-not-trailers": true}
+	"dup-pseudo": true, "missing-path": true, "empty-path": true, "connection-specific": true, "te-not-trailers": true,
+	// the offending field of these two is a header field as well (content-length): what follows it in the block counts
+	"body-too-large-declared": true, "content-length-mismatch": true}
 
 // inherentInflight: kinds in which the peer necessarily keeps sending on the stream after the point at which the
 // server gives up on it (until the server's RST_STREAM has crossed the wire).
